@@ -232,12 +232,24 @@ class Threadless(ABC, Generic[T]):
         unfinished_work_ids = set()
         for task in self.unfinished:
             unfinished_work_ids.add(task._work_id)   # type: ignore
+        failed_work_ids: List[int] = []
         for work_id in self.works:
             # We don't want to invoke work objects which haven't
             # yet finished their previous task
             if work_id in unfinished_work_ids:
                 continue
-            await self._update_work_events(work_id)
+            # A misbehaving work must not take down the
+            # event loop shared with all other works.
+            try:
+                await self._update_work_events(work_id)
+            except Exception as e:
+                logger.exception(
+                    'Exception while updating events for work#{0}'.format(work_id),
+                    exc_info=e,
+                )
+                failed_work_ids.append(work_id)
+        for work_id in failed_work_ids:
+            self._cleanup(work_id)
         await self._update_conn_pool_events()
 
     async def _selected_events(self) -> Tuple[
@@ -313,13 +325,24 @@ class Threadless(ABC, Generic[T]):
                         fileno, work_id,
                     ),
                 )
-                self.selector.unregister(fileno)
+                try:
+                    self.selector.unregister(fileno)
+                except (KeyError, ValueError, OSError):
+                    # Descriptor was already closed by the work
+                    pass
             self.registered_events_by_work_ids[work_id].clear()
             del self.registered_events_by_work_ids[work_id]
-        self.works[work_id].shutdown()
-        del self.works[work_id]
-        if self.work_queue_fileno() is not None:
-            os.close(work_id)
+        try:
+            self.works[work_id].shutdown()
+        except Exception as e:
+            logger.exception(
+                'Exception during shutdown of work#{0}'.format(work_id),
+                exc_info=e,
+            )
+        finally:
+            del self.works[work_id]
+            if self.work_queue_fileno() is not None:
+                os.close(work_id)
 
     def _create_tasks(
             self,
